@@ -31,6 +31,9 @@ type RMWCall struct {
 	Fin     string `json:"fin,omitempty"`
 	Val     string `json:"val,omitempty"`
 	SleepMs int    `json:"sleep_ms,omitempty"`
+	// After: issue the call right after the named commit on the resource (td | fin-empty | fin-added | destroyed | created)
+	// instead of at a random time
+	After string `json:"after,omitempty"`
 }
 
 // C04Case is a C04 run.
